@@ -335,7 +335,12 @@ func TestC12_FixedShapes(t *testing.T) {
 	// structs with methods (String, Error) are structs: their fields are what the template sees
 	money := &spec.Value{T: spec.FixedType("Money"), Items: []*spec.Value{spec.IntOf(spec.TInt64, 1250), spec.String("EUR")}}
 	stamp := &spec.Value{T: spec.FixedType("Stamp"), Items: []*spec.Value{spec.IntOf(spec.TInt64, 86400), spec.String("UTC")}}
+	shadowed := &spec.Value{T: spec.FixedType("Shadowed"), Items: []*spec.Value{spec.String("alice"),
+		{T: spec.FixedType("Audit"), Items: []*spec.Value{spec.String("audit-row"), spec.IntOf(spec.TInt, 7)}}, spec.IntOf(spec.TInt, 30)}}
 	shapes := []shape{
+		{"own-field-before-embedded-namesake", shadowed, "d.Name", asStr("alice")}, {"own-field-before-embedded-namesake-lower", shadowed, "d.name", asStr("alice")},
+		{"own-field-before-embedded-namesake-index", shadowed, `d["Name"]`, asStr("alice")}, {"embedded-namesake-itself", shadowed, "d.Audit.Name", asStr("audit-row")},
+		{"embedded-sibling-after", shadowed, "d.count", asInt(30)}, {"own-field-before-embedded-behind-pointer", spec.Ptr(shadowed), "d.name", asStr("alice")},
 		{"stringer-struct-field", money, "d.Amount", asInt(1250)}, {"stringer-struct-field-lower", money, "d.currency", asStr("EUR")},
 		{"stringer-struct-index", money, `d["Currency"]`, asStr("EUR")}, {"stringer-struct-behind-pointer", spec.Ptr(money), "d.amount", asInt(1250)},
 		{"stringer-struct-in-slice", spec.Slice(money.T, money), "d[0].Currency", asStr("EUR")},
